@@ -180,3 +180,145 @@ pub fn render_file(fd: &FileDiff, u: usize, rng: &mut Rng) -> String {
     }
     out
 }
+
+/// change groups of every file section of a unified diff, read off the hunks (new-file coordinates)
+pub fn footprints_from_diff(diff: &str) -> Vec<(String, Vec<Footprint>, Vec<(Vec<String>, Vec<String>)>)> {
+    let mut out: Vec<(String, Vec<Footprint>, Vec<(Vec<String>, Vec<String>)>)> = Vec::new();
+    let mut cur: Option<usize> = None;
+    let (mut old_no, mut new_no) = (0usize, 0usize);
+    let (mut left_old, mut left_new) = (0usize, 0usize);
+    let mut group: Option<(usize, usize, Vec<String>, Vec<String>)> = None; // (t, src, deleted, added)
+    let mut flush = |group: &mut Option<(usize, usize, Vec<String>, Vec<String>)>, out: &mut Vec<(String, Vec<Footprint>, Vec<(Vec<String>, Vec<String>)>)>, cur: Option<usize>| {
+        if let (Some((t, src, del, add)), Some(c)) = (group.take(), cur) {
+            out[c].1.push(Footprint { t, added: add.len(), deleted: del.len(), src: if del.is_empty() { 0 } else { src } });
+            out[c].2.push((del, add));
+        }
+    };
+    for line in diff.lines() {
+        if left_old == 0 && left_new == 0 {
+            if let Some(p) = line.strip_prefix("+++ ") {
+                flush(&mut group, &mut out, cur);
+                let p = p.split('\t').next().unwrap_or(p);
+                if p == "/dev/null" {
+                    cur = None;
+                } else {
+                    out.push((p.strip_prefix("b/").unwrap_or(p).to_string(), Vec::new(), Vec::new()));
+                    cur = Some(out.len() - 1);
+                }
+                continue;
+            }
+            if let Some(rest) = line.strip_prefix("@@ -") {
+                flush(&mut group, &mut out, cur);
+                let nums: Vec<&str> = rest.split(' ').collect();
+                let parse = |s: &str| -> (usize, usize) {
+                    let s = s.trim_start_matches('+');
+                    match s.split_once(',') {
+                        Some((a, b)) => (a.parse().unwrap_or(0), b.parse().unwrap_or(0)),
+                        None => (s.parse().unwrap_or(0), 1),
+                    }
+                };
+                let (os, ol) = parse(nums[0]);
+                let (ns, nl) = parse(nums.get(1).copied().unwrap_or("+0"));
+                old_no = if ol == 0 { os + 1 } else { os };
+                new_no = if nl == 0 { ns + 1 } else { ns };
+                left_old = ol;
+                left_new = nl;
+                continue;
+            }
+            continue;
+        }
+        match line.chars().next() {
+            Some('+') => {
+                let g = group.get_or_insert((new_no, old_no, Vec::new(), Vec::new()));
+                g.3.push(line[1..].to_string());
+                new_no += 1;
+                left_new -= 1;
+            }
+            Some('-') => {
+                let g = group.get_or_insert((new_no, old_no, Vec::new(), Vec::new()));
+                g.2.push(line[1..].to_string());
+                old_no += 1;
+                left_old -= 1;
+            }
+            Some('\\') => {}
+            _ => {
+                flush(&mut group, &mut out, cur);
+                old_no += 1;
+                new_no += 1;
+                left_old = left_old.saturating_sub(1);
+                left_new = left_new.saturating_sub(1);
+            }
+        }
+        if left_old == 0 && left_new == 0 {
+            flush(&mut group, &mut out, cur);
+        }
+    }
+    flush(&mut group, &mut out, cur);
+    out
+}
+
+/// the diff git itself produces between two states of a set of files
+/// variant: 0 unstaged, 1 staged, 2 commit-to-commit, 3 commit-to-commit with rename detection
+pub fn real_git_diff(old: &[(String, String)], new: &[(String, String)], u: usize, variant: usize) -> Option<String> {
+    use std::process::Command;
+    static N: std::sync::atomic::AtomicUsize = std::sync::atomic::AtomicUsize::new(0);
+    let base = std::env::var("BWV_SCRATCH").unwrap_or_else(|_| "/verif/.cache/scratch".to_string());
+    let dir = std::path::PathBuf::from(base).join(format!("g{}_{}", std::process::id(), N.fetch_add(1, std::sync::atomic::Ordering::SeqCst)));
+    let _ = std::fs::remove_dir_all(&dir);
+    std::fs::create_dir_all(&dir).ok()?;
+    let git = |args: &[&str]| -> Option<String> {
+        let o = Command::new("git").args(["-c", "core.autocrlf=false", "-c", "core.quotepath=false", "-c", "user.name=t", "-c", "user.email=t@example.com", "-c", "init.defaultBranch=main", "-c", "diff.renames=false", "-c", "core.safecrlf=false"])
+            .args(args).current_dir(&dir).env("GIT_CONFIG_NOSYSTEM", "1").env("HOME", &dir).output().ok()?;
+        if !o.status.success() {
+            return None;
+        }
+        Some(String::from_utf8_lossy(&o.stdout).to_string())
+    };
+    let write = |files: &[(String, String)]| -> Option<()> {
+        for (p, t) in files {
+            let path = dir.join(p);
+            if let Some(parent) = path.parent() {
+                std::fs::create_dir_all(parent).ok()?;
+            }
+            std::fs::write(path, t).ok()?;
+        }
+        Some(())
+    };
+    let res = (|| {
+        git(&["init", "-q"])?;
+        write(old)?;
+        git(&["add", "-A"])?;
+        git(&["commit", "-q", "-m", "old", "--allow-empty"])?;
+        // files of the old state that are gone in the new state
+        for (p, _) in old {
+            if !new.iter().any(|(q, _)| q == p) {
+                std::fs::remove_file(dir.join(p)).ok()?;
+            }
+        }
+        write(new)?;
+        let ctx = format!("-U{u}");
+        match variant {
+            0 => {
+                // unstaged: new untracked files do not show up; mark them intent-to-add
+                git(&["add", "-N", "."])?;
+                git(&["diff", &ctx])
+            }
+            1 => {
+                git(&["add", "-A"])?;
+                git(&["diff", "--cached", &ctx])
+            }
+            2 => {
+                git(&["add", "-A"])?;
+                git(&["commit", "-q", "-m", "new"])?;
+                git(&["diff", &ctx, "HEAD~1", "HEAD"])
+            }
+            _ => {
+                git(&["add", "-A"])?;
+                git(&["commit", "-q", "-m", "new"])?;
+                git(&["diff", "-M", &ctx, "HEAD~1", "HEAD"])
+            }
+        }
+    })();
+    let _ = std::fs::remove_dir_all(&dir);
+    res
+}
